@@ -310,7 +310,7 @@ RULE = ("each request (plain QUERY, RD random, with or without an OPT advertisin
 CHECK = {
     "property": "C04",
     "props": "Props/C04.v",
-    "theorems": ["c04_tc_on_the_octets", "c04_glue_complete_partial", "c04_response_within_limit", "c04_tc_shape", "c04_limit_value", "c04_udp_response_size", "c04_udp_identical_when_fits_partial", "c04_writer_limit_monotone", "c04_oracle_tc_shape",
+    "theorems": ["c04_tc_on_the_octets", "c04_glue_complete_partial", "c04_optional_only_partial", "c04_response_within_limit", "c04_tc_shape", "c04_limit_value", "c04_udp_response_size", "c04_udp_identical_when_fits_partial", "c04_writer_limit_monotone", "c04_oracle_tc_shape",
                  "c04_oracle_sizes_and_identity"],
     "allowed_axioms": [],
     "suites": [{
@@ -347,12 +347,15 @@ MANIFEST = {
                    "independent RFC 1035 decoder reads TC set only over UDP, and then empty answer and authority sections and nothing "
                    "but the OPT in the additional section; the glue half of clause (iv) in unary form (c04_glue_complete_partial): a direct "
                    "referral whose answering logic succeeded carries on the finished octets the NS RRset and, first in the additional "
-                   "section, EVERY address record the zone holds for the name servers at/below the delegated zone, whatever the "
-                   "transport and limit; and — clause (iii) for answers that end Ok — if the finished TCP message fits the UDP space the UDP "
+                   "section, EVERY address record the zone holds for the name servers at/below the delegated zone, followed by an "
+                   "order-preserving sub-selection of the other name servers' addresses and then only the OPT, whatever the "
+                   "transport and limit; likewise for direct positive answers (c04_optional_only_partial: answer RRset, empty "
+                   "authority, a sub-selection of the additional-section candidates) — so any two successful responses to the "
+                   "same question differ only in which optional candidates are present (clause (iv) per response against "
+                   "canonical lists, for direct referrals and direct answers; CNAME chains and ANY not covered); and — clause (iii) for answers that end Ok — if the finished TCP message fits the UDP space the UDP "
                    "response is octet-identical (Writer limit-monotonicity + a relational lifting over the query model). PARTIAL: "
                    "clause (iii) for answers ending in SERVFAIL after partial writes (false there: known finding C04-1) and the "
-                   "comparison half of clause (iv) ('a TC-clear UDP response differs from the TCP one only by omitted optional "
-                   "additional records') are not theorems; they, and all clauses on the real octets, are decided on every run by the extracted relation pair_check "
+                   "clause (iv) beyond direct referrals / direct answers (after a CNAME chain, QTYPE ANY) are not theorems; they, and all clauses on the real octets, are decided on every run by the extracted relation pair_check "
                    "on the real server's two responses to ~2.4k requests tuned to within +-40 octets of 512 and of random negotiated "
                    "sizes; both responses are also compared octet for octet with the model."),
     "level_note": ("Trusted: Coq kernel, extraction, fidelity of the hand-written models (octet-exact differential test on every run), "
